@@ -735,8 +735,8 @@ def build_cli_inputs(spec, wd):
     bams = []
     for bi, part in enumerate(parts):
         bpath = os.path.join(wd, f"in{bi}.bam")
-        G.write_bam_rg(sc, part, bpath, lanes=2 if spec.get("multi_rg") else 1,
-                       read_groups=not (ignore_rg and spec.get("drop_rg")))
+        synth.write_bam(sc, part, bpath, read_groups=not (ignore_rg and spec.get("drop_rg")),
+                        rg_per_sample=2 if spec.get("multi_rg") else 1)
         bams.append(bpath)
     vcf_arg = vcf
     if spec.get("gz_in"):
@@ -835,7 +835,12 @@ def cli_case(ctx, spec, wd):
     acc = accessible_positions(vcf, bams, ref, spec["k"], targets, chromosomes, ignore_rg, bool(spec.get("only_snvs")),
                                not spec.get("no_mav"), spec.get("min_overlap", 2),
                                20 if spec.get("mapq") is None else spec["mapq"])
-    fin, fout = vcfabs.parse_vcf(vcf), vcfabs.parse_vcf(out)
+    fin = vcfabs.parse_vcf(vcf)
+    try:
+        fout = vcfabs.parse_vcf(out)
+    except Exception as e:  # noqa
+        ctx.violation("cli:unreadable-output", f"output VCF of whatshap polyphase {spec} cannot be parsed: {type(e).__name__}: {e}", rep)
+        return None
     it = vcfabs.Interner()
     samples_t, untouched_t, info = [], [], []
     if len(fin.records) != len(fout.records):
@@ -924,8 +929,35 @@ def check_cli(ctx, runs, label):
         ctx.tally("cli.missing_or_partial_calls_of_processed_samples", r.get("nfixed", 0))
         ctx.tally("cli.homozygous_calls_of_processed_samples", r.get("nhom", 0))
         ctx.tally("cli.untouched_sample_chromosomes", r.get("nuntouched", 0))
-        if r["spec"].get("only_first_sample"):
+        sp = r["spec"]
+        if sp.get("only_first_sample") and sp["nsamples"] > 1:
             ctx.tally("cli.with_--sample")
+        ctx.tally(f"cli.threads{sp.get('threads', 1)}")
+        ctx.tally(f"cli.tag{sp.get('tag', 'PS')}")
+        ctx.tally(f"cli.nsamples{sp['nsamples']}")
+        ctx.tally(f"cli.nchrom{sp.get('nchrom', 1)}")
+        ctx.tally(f"cli.nvars{'<=3' if sp['nvars'] <= 3 else '>=8' if sp['nvars'] >= 8 else '4-7'}")
+        ctx.tally(f"cli.min_overlap{sp.get('min_overlap', 2)}")
+        ctx.tally(f"cli.mapq_{sp.get('mapq')}{'+lowq_reads' if sp.get('lowq') else ''}")
+        ctx.tally(f"cli.bams{sp.get('nbams', 1)}")
+        ctx.tally(f"cli.out_{sp.get('out_mode', 'file')}")
+        ctx.tally(f"cli.names{sp.get('names', 0)}")
+        ctx.tally(f"cli.chromnames{sp.get('chrom_names', 0)}")
+        for flag in ("haploid_sets", "only_snvs", "no_mav", "multi_rg", "gz_in", "monomorphic", "reference", "adjacent", "deep"):
+            if sp.get(flag):
+                ctx.tally(f"cli.{flag}")
+        if sp.get("one_chromosome") and sp.get("nchrom", 1) > 1:
+            ctx.tally("cli.with_--chromosome")
+        if sp.get("ignore_rg") and (sp["nsamples"] == 1 or sp.get("only_first_sample")):
+            ctx.tally("cli.ignore_read_groups" + ("+no_RG_in_bam" if sp.get("drop_rg") else ""))
+        if sp["prephase"]:
+            ctx.tally(f"cli.prephasing+sens{sp['sens']}")
+            if sp.get("hom_prephased"):
+                ctx.tally("cli.prephased_homozygous_calls_in_input")
+        if sp.get("threads", 1) > 1:
+            ctx.tally("cli.threads>1.phased_calls", r["nphased"])
+        if sp.get("tag") == "HP":
+            ctx.tally("cli.tagHP.phased_calls", r["nphased"])
     trusted = [i for i, r in enumerate(runs) if not r["spec"].get("distrust")]
     distrusted = [i for i, r in enumerate(runs) if r["spec"].get("distrust")]
     f1 = evaluate("C15cli", CLI_CHECKS, [cases[i] for i in trusted], shard=4)
@@ -962,6 +994,18 @@ def check_cli(ctx, runs, label):
 
 
 # ------------------------------------------------------------------------------------------------- driver
+def guarded(ctx, sig, rep, fn, *a, **kw):
+    """an exception of the implementation in an in-process driver is an outcome (a violation with the input as
+    replay), never a harness error"""
+    try:
+        return fn(*a, **kw)
+    except Exception as e:  # noqa
+        import traceback
+        tb = traceback.format_exc().strip().split("\n")
+        ctx.violation(sig, f"{type(e).__name__}: {e} ({tb[-3].strip() if len(tb) >= 3 else ''}) on a generated input", rep)
+        return None
+
+
 def new_buckets():
     return {k: [] for k in ("force", "assign", "ilp", "permute", "integrate", "aggregate", "cuts")}
 
@@ -1036,12 +1080,16 @@ def run(ctx):
     items = []
     for i in range(ctx.n(60, 1500)):
         c = G.gen_aggregate_case(rng)
-        items.append((c, G.run_aggregate(c), {"kind": "aggregate", "case": c}))
+        res = guarded(ctx, "aggregate:crash", {"kind": "aggregate", "case": c}, G.run_aggregate, c)
+        if res is not None:
+            items.append((c, res, {"kind": "aggregate", "case": c}))
     check_aggregate(ctx, items, "synthetic")
     items = []
     for i in range(ctx.n(60, 1500)):
         c = G.gen_cuts_case(rng)
-        items.append((c["wellformed"], c["sens"], c["bps"], G.run_cuts(c), {"kind": "cuts", "case": c}))
+        res = guarded(ctx, "cuts:crash", {"kind": "cuts", "case": c}, G.run_cuts, c)
+        if res is not None:
+            items.append((c["wellformed"], c["sens"], c["bps"], res, {"kind": "cuts", "case": c}))
     check_cuts(ctx, items, "synthetic")
 
     # ---- E/F: traced real pipeline on matrix instances + stubbed solver for the component construction
@@ -1051,28 +1099,40 @@ def run(ctx):
         inst = G.gen_matrix_instance(rng)
         if rng.random() < 0.35:
             G.add_prephasing(rng, inst)
-        ev, item = drive_individual(ctx, inst, wd, f"m{i}")
+        res = guarded(ctx, "individual:crash", {"kind": "individual", "inst": inst, "stub": None}, drive_individual, ctx, inst, wd, f"m{i}")
+        if res is None:
+            continue
+        ev, item = res
         dispatch_events(ctx, ev, item["rep"], "traced", b)
         indiv.append(item)
         ctx.tally(f"matrix.ploidy{inst['k']}")
     for i in range(ctx.n(2, 12)):
         inst = G.gen_matrix_instance(rng, k=2, nvars=rng.randint(3, 6), nreads=10, deep=True)
         inst["deep"] = True
-        ev, item = drive_individual(ctx, inst, wd, f"d{i}")
+        res = guarded(ctx, "individual:crash", {"kind": "individual", "inst": inst, "stub": None}, drive_individual, ctx, inst, wd, f"d{i}")
+        if res is None:
+            continue
+        ev, item = res
         item["deep"] = True
         dispatch_events(ctx, ev, item["rep"], "traced-deep", b)
         indiv.append(item)
     for i in range(ctx.n(8, 100)):
         # variants on neighbouring positions p, p+1 with no read across: a real block cut exactly between them
         inst = G.gen_matrix_instance(rng, adjacent_split=True)
-        ev, item = drive_individual(ctx, inst, wd, f"a{i}")
+        res = guarded(ctx, "individual:crash", {"kind": "individual", "inst": inst, "stub": None}, drive_individual, ctx, inst, wd, f"a{i}")
+        if res is None:
+            continue
+        ev, item = res
         dispatch_events(ctx, ev, item["rep"], "traced-adjacent", b)
         indiv.append(item)
     for i in range(ctx.n(40, 700)):
         plant = i % 2 == 0
         inst = G.gen_matrix_instance(rng, adjacent_split=plant)
         stub = G.gen_stub_result(rng, inst, plant_adjacent_cut=plant)
-        ev, item = drive_individual(ctx, inst, wd, f"s{i}", stub=stub)
+        res = guarded(ctx, "individual:crash", {"kind": "individual", "inst": inst, "stub": stub}, drive_individual, ctx, inst, wd, f"s{i}", stub=stub)
+        if res is None:
+            continue
+        ev, item = res
         dispatch_events(ctx, [e for e in ev if e["kind"] == "cuts"], item["rep"], "stub", b)
         indiv.append(item)
     flush_buckets(ctx, b, "traced")
@@ -1085,8 +1145,8 @@ def run(ctx):
     # ---- G: CLI
     runs = []
     specs = []
-    ploidies = [3, 4, 2, 4, 3, 5, 4, 3] if ctx.quick else [2, 3, 4, 5, 6] * 12
-    for i, k in enumerate(ploidies[:ctx.n(7, 60)]):
+    ploidies = [3, 4, 2, 4, 3, 5, 4, 3, 6, 2, 4, 3, 5, 4, 2, 3, 4, 3] if ctx.quick else [2, 3, 4, 5, 6] * 14
+    for i, k in enumerate(ploidies[:ctx.n(18, 70)]):
         s = make_cli_spec(rng, ploidy=k)
         s["sens"] = i % 6
         s["prephase"] = (i % 3 == 1) or s["prephase"]
@@ -1103,7 +1163,7 @@ def run(ctx):
     for _ in range(ctx.n(0, 3)):
         specs.append(make_cli_spec(rng, deep=True))
     for i, s in enumerate(specs):
-        runs.append(cli_case(ctx, s, os.path.join(wd, f"cli{i}")))
+        runs.append(guarded(ctx, "cli:crash", {"kind": "cli", "spec": s}, cli_case, ctx, s, os.path.join(wd, f"cli{i}")))
     check_cli(ctx, runs, "synthetic")
     if not ctx.dist.get("cli.adjacent_positions_with_cut_between") and not ctx.violations:
         raise RuntimeError("generator lost its coverage: no CLI run with a phase-set cut between neighbouring positions")
